@@ -66,6 +66,14 @@ Definition ftypes := list (string * string).   (* "Type.field" -> named type *)
 
 Record routed := { r_path : list string; r_name : string; r_tcond : string; r_loc : string }.
 
+(* the concatenated results of f over a selection list *)
+Definition route_map (f : sel -> res (list routed)) : list sel -> res (list routed) :=
+  fix go (l : list sel) : res (list routed) :=
+    match l with
+    | [] => Ok []
+    | x :: r => a <- f x ;; b <- go r ;; Ok (a ++ b)
+    end.
+
 (* Structural in the fuel: one unit per fragment spread followed (validated documents have no
    fragment cycles, so fuel = number of fragments + 1 is never exhausted). *)
 Fixpoint route (fuel : nat) (prios : list string) (urls : urlmap) (ft : ftypes) (frags : list fragdef)
@@ -74,12 +82,6 @@ Fixpoint route (fuel : nat) (prios : list string) (urls : urlmap) (ft : ftypes) 
   | O => Err "fragment nesting exceeds fuel"
   | S fuel' =>
       (fix route_one (ptype ploc : string) (path : list string) (s : sel) {struct s} : res (list routed) :=
-         let route_list :=
-           fix route_list (ptype ploc : string) (path : list string) (l : list sel) {struct l} : res (list routed) :=
-             match l with
-             | [] => Ok []
-             | x :: r => a <- route_one ptype ploc path x ;; b <- route_list ptype ploc path r ;; Ok (a ++ b)
-             end in
          match s with
          | Field alias name _ _ sub =>
              possible <- url_for urls ptype name ;;
@@ -89,29 +91,19 @@ Fixpoint route (fuel : nat) (prios : list string) (urls : urlmap) (ft : ftypes) 
              | [] => Ok [here]
              | _ => match assoc (url_key ptype name) ft with
                     | None => Err "no type for field"
-                    | Some t => below <- route_list t loc (path ++ [rkey alias name]) sub ;; Ok (here :: below)
+                    | Some t => below <- route_map (route_one t loc (path ++ [rkey alias name])) sub ;; Ok (here :: below)
                     end
              end
          | Inline tcond _ sub =>
-             route_list (if String.eqb tcond "" then ptype else tcond) ploc path sub
+             route_map (route_one (if String.eqb tcond "" then ptype else tcond) ploc path) sub
          | Spread name _ =>
              match frag_for name frags with
              | None => Err "Could not find definition for fragment"
-             | Some f =>
-                 (fix spread_list (l : list sel) : res (list routed) :=
-                    match l with
-                    | [] => Ok []
-                    | x :: r => a <- route fuel' prios urls ft frags (f_tcond f) ploc path x ;;
-                                b <- spread_list r ;; Ok (a ++ b)
-                    end) (f_sel f)
+             | Some f => route_map (route fuel' prios urls ft frags (f_tcond f) ploc path) (f_sel f)
              end
          end) ptype ploc path s
   end.
 
-Fixpoint route_sels (fuel : nat) prios urls ft frags (ptype ploc : string) (path : list string) (l : list sel)
+Definition route_sels (fuel : nat) prios urls ft frags (ptype ploc : string) (path : list string) (l : list sel)
   : res (list routed) :=
-  match l with
-  | [] => Ok []
-  | x :: r => a <- route fuel prios urls ft frags ptype ploc path x ;;
-              b <- route_sels fuel prios urls ft frags ptype ploc path r ;; Ok (a ++ b)
-  end.
+  route_map (route fuel prios urls ft frags ptype ploc path) l.
